@@ -38,6 +38,7 @@ type thread struct {
 	wantWrite bool
 	pending   bool // counted in blockedOn.pendW
 	vc        vclock
+	acq       map[string]int // completed lock acquisitions per enclosing function
 	// waiting for a condition other than a lock (sync.WaitGroup.Wait)
 	waitFn   func() bool
 	waitWhat string
@@ -80,6 +81,19 @@ type scheduler struct {
 	switches    int
 	atomVC      map[*value]vclock
 	wg          sync.WaitGroup
+	first       int        // the thread that started
+	curWhere    string     // enclosing function of the lock operation being scheduled
+	handoff     *SchedInfo // the first preemption at a lock acquisition
+}
+
+// SchedInfo describes the first preemption of a parallel section in terms the
+// native build can follow: thread Thread was about to make its Nth (0-based)
+// lock acquisition inside function Where when the other threads ran.
+type SchedInfo struct {
+	First  int    `json:"first"`
+	Thread int    `json:"thread"`
+	Where  string `json:"where"`
+	Nth    int    `json:"nth"`
 }
 
 func (s *scheduler) curT() *thread { return s.threads[s.cur] }
@@ -185,6 +199,9 @@ func (s *scheduler) schedule(t *thread) {
 				pick = s.i.path.choose(len(c), "sched")
 				if c[0] == t && pick != 0 {
 					s.preemptions++
+					if s.handoff == nil && s.curWhere != "" {
+						s.handoff = &SchedInfo{First: s.first, Thread: t.id, Where: s.curWhere, Nth: t.acq[s.curWhere]}
+					}
 				}
 			}
 		}
@@ -234,7 +251,9 @@ func (s *scheduler) lockOp(i *interpreter, l *lockState, write, acquire bool, wh
 		return nil
 	}
 	// scheduling point before the acquisition
+	s.curWhere = where
 	s.schedule(t)
+	s.curWhere = ""
 	if write && (l.writer == id || l.readers[id] > 0) {
 		i.env.lockEvents = append(i.env.lockEvents, lockEvent{"self-deadlock", "Lock of " + l.name + " in " + where + " while held by the same goroutine"})
 		s.deadlock = "thread " + fmt.Sprint(id) + " re-acquires " + l.name + " in " + where
@@ -256,6 +275,10 @@ func (s *scheduler) lockOp(i *interpreter, l *lockState, write, acquire bool, wh
 		l.pendW--
 	}
 	t.blockedOn = nil
+	if t.acq == nil {
+		t.acq = map[string]int{}
+	}
+	t.acq[where]++
 	if write {
 		l.writer = id
 		t.vc.join(s.lockVC(s.wvc, l))
@@ -454,6 +477,7 @@ func (i *interpreter) runPar(fr *frame, fns []value, maxPreempt int) {
 		first = i.path.choose(n, "sched")
 	}
 	s.cur = first + 1
+	s.first = first + 1
 	i.env.curThread = first + 1
 	s.threads[first+1].resume <- true
 	<-s.mainCh
@@ -472,6 +496,9 @@ func (i *interpreter) runPar(fr *frame, fns []value, maxPreempt int) {
 	i.env.sched = nil
 	i.env.curThread = prevThread
 	i.env.lastSched = s
+	if i.path != nil && s.handoff != nil {
+		i.path.sched = s.handoff
+	}
 	if s.abort != nil {
 		panic(s.abort)
 	}
